@@ -23,13 +23,24 @@ package pc20
 //     the Checks object). Must be reported.
 //   - ok       : must be accepted and must land exactly where direct construction puts it.
 //   - unfixed  : the statement does not fix whether this is a misuse (missing *description* / *plugin*, nil group id,
-//     nil entries inside a pre-populated Actions slice). Not judged: the reference follows what the real
-//     builder did (weaker reading) and labels it — but if the builder reports an error, the sticky-error
-//     clause applies to that error as to any other, and if it accepts the object, it must be placed right.
+//     nil entries inside a pre-populated Actions slice, Plan() below the root level, Up() at the root). Not
+//     judged: the reference follows what the real builder did (weaker reading) and labels it — but if the
+//     builder reports an error, the sticky-error clause applies to that error as to any other, and if it
+//     accepts the object, it must be placed right.
 //   - sticky   : any call except New/Reset while the reference is in the error state: must be a no-op that keeps
-//     returning the error value of the first misuse (identity, ==).
+//     returning the error of the first misuse (the same value, or an error that wraps it: sameErr).
+//
+// Corrections after the soundness audit (mutants/AUDIT-soundness-pure.md FA-6, FA-7, J-1; AUDIT-soundness.md N9):
+//   - the plan is compared structurally only ("exactly the plan that directly constructing the same hierarchy would
+//     yield"); whether it aliases the caller's objects is a label, not a verdict, and an object the caller supplied
+//     may at the end equal its pre-call snapshot (builder copied it) or its reference twin (builder adopted it);
+//   - Plan() below the root and Up() at the root are unfixed: the statement lists "wrong level" without saying which
+//     call belongs to which level;
+//   - "keep returning" is read as errors.Is (a wrapper around the first error still returns it); error values of a
+//     non-comparable type are compared with reflect.DeepEqual instead of ==.
 
 import (
+	"errors"
 	"fmt"
 	"reflect"
 	"sort"
@@ -417,10 +428,16 @@ func (in *interp) classify(c Call) verdict {
 		}
 	case opUp:
 		if len(in.stack) < 2 {
-			return verdict{vMisuse, "wrong-level"} // nothing above the plan
+			// Nothing above the plan. "wrong level" may or may not be meant to cover this (a builder that ignores the
+			// call drops and misplaces nothing): follow the builder.
+			return verdict{vUnfixed, "up-at-root"}
 		}
 	case opPlan:
-		// The documentation puts no level condition on Plan(): it "emits the built Plan object".
+		if len(in.stack) > 1 {
+			// The statement does not say at which level Plan() is legal (FA-7): a builder may emit the plan from
+			// anywhere (today's code) or demand Up() to the root first and report "wrong level".
+			return verdict{vUnfixed, "plan-below-root"}
+		}
 	}
 	return verdict{kind: vOK}
 }
@@ -484,7 +501,9 @@ func (in *interp) apply(c Call, a args, v verdict, accepted bool) {
 			t.Actions = append(t.Actions, a.action)
 		}
 	case opUp:
-		in.stack = in.stack[:len(in.stack)-1]
+		if len(in.stack) > 1 { // an accepted Up() at the root (unfixed) leaves the position at the root
+			in.stack = in.stack[:len(in.stack)-1]
+		}
 	case opPlan:
 		in.emitted = true
 	}
@@ -764,16 +783,16 @@ func predictAccepted(c Call, v verdict) bool {
 	case vOK:
 		return true
 	case vUnfixed:
-		return v.why == "nil-pre-action" && c.Op == opAddSequence
+		return v.why == "plan-below-root" || (v.why == "nil-pre-action" && c.Op == opAddSequence)
 	}
 	return false
 }
 
 func genProgram(t *rapid.T) BuilderProgram {
 	// rapid's slice length is min + a geometric tail (mean about max(min, 5)): a drawn minimum mixes many short programs
-	// with enough long ones to build trees with several blocks and sequences (at most 40 calls incl. the final Plan)
+	// with enough long ones to build trees with several blocks and sequences (at most 40 calls incl. the final Up()s and Plan)
 	minLen := rapid.IntRange(1, 12).Draw(t, "minLen")
-	raws := rapid.SliceOfN(rawGen, minLen, 39).Draw(t, "calls")
+	raws := rapid.SliceOfN(rawGen, minLen, 37).Draw(t, "calls")
 	rate := rapid.IntRange(0, 3).Draw(t, "invalidRate")
 	in := &interp{}
 	p := BuilderProgram{}
@@ -784,8 +803,15 @@ func genProgram(t *rapid.T) BuilderProgram {
 		v := in.classify(c)
 		in.apply(c, materialize(c), v, predictAccepted(c, v))
 	}
-	// most programs end by asking for the plan, so that the tree (or the sticky error) is observed
-	if rapid.IntRange(0, 3).Draw(t, "finalPlan") > 0 {
+	// Most programs end by asking for the plan, so that the tree (or the sticky error) is observed: 1 = Plan() wherever
+	// the program stands (below the root its legality is not fixed by the statement), 2..3 = Up() to the root first,
+	// which is the documented way (package example) and is judged strictly.
+	if fp := rapid.IntRange(0, 3).Draw(t, "finalPlan"); fp > 0 {
+		if fp > 1 && in.have && !in.inErr && !in.emitted {
+			for d := len(in.stack); d > 1; d-- {
+				p.Calls = append(p.Calls, Call{Op: opUp})
+			}
+		}
 		p.Calls = append(p.Calls, Call{Op: opPlan})
 	}
 	return p
@@ -800,8 +826,10 @@ type emittedRec struct {
 }
 
 type suppliedRec struct {
-	ref, real args
-	at        int
+	// real is what the builder was handed, ref the reference twin (grown by the reference), snap a third copy that
+	// nobody touches: the state of the object before the call.
+	ref, real, snap args
+	at              int
 }
 
 type runner struct {
@@ -810,7 +838,9 @@ type runner struct {
 	b        *builder.BuildPlan
 	in       interp
 	sticky   error       // error value of the first misuse since the last successful New/Reset
-	pairs    map[any]any // reference twin -> object supplied to the real builder
+	pairs    map[any]any // reference twin -> object supplied to the real builder (for the aliasing label only)
+	holds    int         // objects of emitted plans that are the caller's own objects
+	copies   int         // ... that are equal copies of them
 	emitted  []emittedRec
 	supplied []suppliedRec
 	misuses  int
@@ -830,15 +860,30 @@ func guard(f func()) (p any) {
 	return nil
 }
 
-// same is identity of two error values (==); an uncomparable dynamic type counts as different.
-func same(a, b error) (eq bool) {
+// sameErr reports whether got "keeps returning" the error first: the same value (==, which errors.Is applies only to
+// comparable dynamic types, so nothing can panic) or an error that wraps it (J-1: a wrapper such as
+// fmt.Errorf("builder.Plan(): %w", first) still returns the first error in the errors.Is sense). Values of a
+// non-comparable dynamic type (N9, e.g. a struct holding a slice) are compared with reflect.DeepEqual. Distinct
+// comparable values (two errors.New with the same text) stay different.
+func sameErr(got, first error) (eq bool) {
+	if got == nil || first == nil {
+		return got == nil && first == nil
+	}
+	deep := func() bool {
+		return !reflect.TypeOf(first).Comparable() && reflect.DeepEqual(got, first)
+	}
 	defer func() {
+		// a comparable struct type can still hold an interface with a non-comparable value: no alarm from that
 		if recover() != nil {
-			eq = false
+			eq = reflect.DeepEqual(got, first)
 		}
 	}()
-	return a == b
+	return errors.Is(got, first) || deep()
 }
+
+// related: the error result of a call (Reset, Plan) and Err() right after it are the same report when either is, or
+// wraps, the other.
+func related(a, b error) bool { return sameErr(a, b) || sameErr(b, a) }
 
 func (r *runner) pair(ref, real args) {
 	pairActs := func(rs, ls []*workflow.Action) {
@@ -894,7 +939,7 @@ func (r *runner) step(i int, c Call) bool {
 	}
 	real, ref := materialize(c), materialize(c)
 	r.pair(ref, real)
-	r.supplied = append(r.supplied, suppliedRec{ref: ref, real: real, at: i})
+	r.supplied = append(r.supplied, suppliedRec{ref: ref, real: real, snap: materialize(c), at: i})
 	class := r.stateClass(c)
 
 	var (
@@ -985,12 +1030,12 @@ func (r *runner) step(i int, c Call) bool {
 		r.label("call-in-error-state")
 		if c.Op == opPlan {
 			r.label("plan-in-error-state")
-			if !same(ret, r.sticky) {
+			if !sameErr(ret, r.sticky) {
 				r.res.Fail(stickyRule(ret, class), "call %d Plan() in the error state returned %s", i, differs(ret, r.sticky))
 				return true
 			}
 		}
-		if !same(e, r.sticky) {
+		if !sameErr(e, r.sticky) {
 			r.res.Fail(stickyRule(e, class), "Err() after call %d %s (a no-op in the error state) is %s", i, render(c), differs(e, r.sticky))
 			return true
 		}
@@ -1035,20 +1080,26 @@ func (r *runner) step(i int, c Call) bool {
 			case e == nil:
 				r.res.Fail("C20/sticky:cleared:failed-reset", "call %d %s returned error %q but Err() is nil afterwards: the misuse is not kept", i, render(c), ret)
 				return true
-			case same(e, ret), r.in.inErr && same(e, r.sticky):
+			case related(e, ret), r.in.inErr && sameErr(e, r.sticky):
 				r.sticky = e
 			default:
 				r.res.Fail("C20/sticky:replaced:failed-reset", "call %d %s returned error %s but Err() is %s afterwards", i, render(c), errStr(ret), errStr(e))
 				return true
 			}
 		case opPlan:
-			// second Plan(): "use after the plan was emitted"
-			r.label("second-plan")
-			if !same(e, ret) {
-				r.res.Fail(stickyRule(e, "after-emit"), "call %d Plan() after emission returned error %s but Err() is %s afterwards", i, errStr(ret), errStr(e))
+			// second Plan() ("use after the plan was emitted"), or a Plan() below the root that this builder treats
+			// as a wrong-level call (unfixed): either way the error it reports is the first misuse and must be kept
+			cls, what := "after-emit", "after emission"
+			if v.why == "plan-below-root" {
+				cls, what = "plan-below-root", "below the root level"
+			} else {
+				r.label("second-plan")
+			}
+			if !related(e, ret) {
+				r.res.Fail(stickyRule(e, cls), "call %d Plan() %s returned error %s but Err() is %s afterwards", i, what, errStr(ret), errStr(e))
 				return true
 			}
-			r.sticky = ret
+			r.sticky = e
 		default:
 			r.sticky = e
 		}
@@ -1067,12 +1118,16 @@ func (r *runner) step(i int, c Call) bool {
 			return true
 		}
 		r.label("plan-emitted")
+		if v.kind == vOK {
+			r.label("plan-emitted:at-root")
+		}
 		// "yields exactly the plan that directly constructing the same hierarchy would yield";
 		// "never silently drops or misplaces an object"
 		if cls, msg := r.diffPlan(gotPlan, r.in.plan); cls != "" {
 			r.res.Fail("C20/plan-differs:"+cls, "plan emitted by call %d differs from direct construction: %s", i, msg)
 			return true
 		}
+		r.noteIdentity(gotPlan, r.in.plan)
 		r.emitted = append(r.emitted, emittedRec{got: gotPlan, want: r.in.plan, at: i})
 	}
 	return false
@@ -1087,11 +1142,11 @@ func (r *runner) unfixed(v verdict, accepted bool) {
 	}
 }
 
-// differs describes a sticky-error mismatch; identical texts are pointed out because identity (==) is what is compared:
-// "keep returning" the error of the first misuse / doc "will return the same error" (DESIGN §5 C20: identical, ==).
+// differs describes a sticky-error mismatch; identical texts are pointed out because values are compared (sameErr):
+// "keep returning" the error of the first misuse / doc "will return the same error".
 func differs(got, want error) string {
 	if got != nil && want != nil && got.Error() == want.Error() {
-		return fmt.Sprintf("a different error value (same text %q) than the one the first misuse was reported with", want.Error())
+		return fmt.Sprintf("a different error value (same text %q, not wrapping it) than the one the first misuse was reported with", want.Error())
 	}
 	return fmt.Sprintf("%s; the first misuse was reported as %s", errStr(got), errStr(want))
 }
@@ -1113,19 +1168,77 @@ func (r *runner) finish() {
 			return
 		}
 	}
+	// An object the caller handed in: the statement does not say whether the builder adopts it (then it grows exactly
+	// like the reference twin: only accepted AddAction calls append to it) or copies it (then it stays as it was before
+	// the call). Both are accepted (FA-6); only a third state is a violation — e.g. an action appended by a call that
+	// had to be a no-op.
 	for _, s := range r.supplied {
-		var cls, msg string
-		switch {
-		case s.ref.checks != nil:
-			cls, msg = r.diffChecks(fmt.Sprintf("checks of call %d", s.at), s.real.checks, s.ref.checks)
-		case s.ref.seq != nil:
-			cls, msg = r.diffSeq(fmt.Sprintf("sequence of call %d", s.at), s.real.seq, s.ref.seq)
-		case s.ref.action != nil:
-			cls, msg = r.diffAction(fmt.Sprintf("action of call %d", s.at), s.real.action, s.ref.action)
+		diff := func(other args) (string, string) {
+			switch {
+			case s.ref.checks != nil:
+				return r.diffChecks(fmt.Sprintf("checks of call %d", s.at), s.real.checks, other.checks)
+			case s.ref.seq != nil:
+				return r.diffSeq(fmt.Sprintf("sequence of call %d", s.at), s.real.seq, other.seq)
+			case s.ref.action != nil:
+				return r.diffAction(fmt.Sprintf("action of call %d", s.at), s.real.action, other.action)
+			}
+			return "", ""
 		}
-		if cls != "" {
-			r.res.Fail("C20/object-modified:"+cls, "object supplied by the caller differs from its reference twin at the end: %s", msg)
-			return
+		cls, msg := diff(s.ref)
+		if cls == "" {
+			continue
+		}
+		if c2, _ := diff(s.snap); c2 == "" {
+			r.label("caller-object:untouched-while-reference-grew")
+			continue
+		}
+		r.res.Fail("C20/object-modified:"+cls, "object supplied by the caller is at the end neither as it was before the call nor as the reference twin (grown by the accepted calls only): %s", msg)
+		return
+	}
+}
+
+// noteIdentity counts, for a plan that already compared equal to the reference tree, which of its Checks / Sequence /
+// Action objects are the caller's own objects and which are copies. A label, not a verdict: the statement promises the
+// plan direct construction would yield, not aliasing with the arguments (FA-6).
+func (r *runner) noteIdentity(got, want *workflow.Plan) {
+	note := func(g, w any) {
+		if twin, ok := r.pairs[w]; ok {
+			if twin == g {
+				r.holds++
+			} else {
+				r.copies++
+			}
+		}
+	}
+	acts := func(g, w []*workflow.Action) {
+		for i := range w {
+			if i < len(g) && w[i] != nil && g[i] != nil {
+				note(g[i], w[i])
+			}
+		}
+	}
+	groups := func(g, w [5]*workflow.Checks) {
+		for i := range w {
+			if w[i] != nil && g[i] != nil {
+				note(g[i], w[i])
+				acts(g[i].Actions, w[i].Actions)
+			}
+		}
+	}
+	groups([5]*workflow.Checks{got.BypassChecks, got.PreChecks, got.ContChecks, got.PostChecks, got.DeferredChecks},
+		[5]*workflow.Checks{want.BypassChecks, want.PreChecks, want.ContChecks, want.PostChecks, want.DeferredChecks})
+	for bi, wb := range want.Blocks {
+		if bi >= len(got.Blocks) || got.Blocks[bi] == nil {
+			break
+		}
+		gb := got.Blocks[bi]
+		groups([5]*workflow.Checks{gb.BypassChecks, gb.PreChecks, gb.ContChecks, gb.PostChecks, gb.DeferredChecks},
+			[5]*workflow.Checks{wb.BypassChecks, wb.PreChecks, wb.ContChecks, wb.PostChecks, wb.DeferredChecks})
+		for si, ws := range wb.Sequences {
+			if si < len(gb.Sequences) && ws != nil && gb.Sequences[si] != nil {
+				note(gb.Sequences[si], ws)
+				acts(gb.Sequences[si].Actions, ws.Actions)
+			}
 		}
 	}
 }
@@ -1138,9 +1251,6 @@ func (r *runner) diffAction(path string, got, want *workflow.Action) (string, st
 	}
 	if want == nil {
 		return "", ""
-	}
-	if twin, ok := r.pairs[want]; ok && twin != any(got) {
-		return "identity", fmt.Sprintf("%s (%q): not the Action object the caller supplied", path, got.Name)
 	}
 	if !reflect.DeepEqual(*got, *want) {
 		return "action-fields", fmt.Sprintf("%s: got %+v want %+v", path, *got, *want)
@@ -1179,9 +1289,6 @@ func (r *runner) diffChecks(path string, got, want *workflow.Checks) (string, st
 	if want == nil {
 		return "", ""
 	}
-	if twin, ok := r.pairs[want]; ok && twin != any(got) {
-		return "identity", fmt.Sprintf("%s: not the Checks object the caller supplied for this slot (holds %s, want %s)", path, actNames(got.Actions), actNames(want.Actions))
-	}
 	g, w := *got, *want
 	g.Actions, w.Actions = nil, nil
 	if !reflect.DeepEqual(g, w) {
@@ -1196,9 +1303,6 @@ func (r *runner) diffSeq(path string, got, want *workflow.Sequence) (string, str
 	}
 	if want == nil {
 		return "", ""
-	}
-	if twin, ok := r.pairs[want]; ok && twin != any(got) {
-		return "identity", fmt.Sprintf("%s: is sequence %q, want the Sequence object %q the caller supplied", path, got.Name, want.Name)
 	}
 	g, w := *got, *want
 	g.Actions, w.Actions = nil, nil
@@ -1323,6 +1427,12 @@ func checkProgram(p BuilderProgram) (res vprop.Result) {
 		r.label("len:6-15")
 	default:
 		r.label("len:16-40")
+	}
+	if r.holds > 0 {
+		r.label("emitted:holds-caller-objects")
+	}
+	if r.copies > 0 {
+		r.label("emitted:copies-caller-objects")
 	}
 	if len(r.emitted) > 1 {
 		r.label("plans-emitted>=2")
